@@ -86,6 +86,8 @@ const (
 	countShift   = 0
 	countMask    = 0x1f
 	countMax     = (1 << 5) - 1
+	// the length field counts 32-bit words minus one in 16 bits
+	maxPacketLength = (1 << 16) * 4
 )
 
 // Marshal encodes the Header in binary
